@@ -201,4 +201,50 @@ theorem numeral_good (x : Numeral) (hwf : x.wf = true) (hlz : x.leadingZero = fa
             (Or.inr ⟨rfl, hF0⟩) hEP (by simpa using hu) (by simp; omega) hlen (Or.inl (by simp))
           simpa [List.append_assoc] using this
 
+/-! ### the closed statements -/
+
+/-- **`real_within_one_ulp_closed`** — for every well-formed numeral without a leading zero of at most 99 999 000 units:
+whenever `StringToNumber` (as modelled) returns a finite `Real`, its magnitude pattern is within one unit in the last
+place of the correctly rounded (nearest, ties to even, gradual underflow) binary64 value of the numeral's exact
+value. This is `real_within_one_ulp` (Props/C09.lean) with the documented length bound in place of `< 2^32`. -/
+theorem real_within_one_ulp_closed :
+    ∀ (x : Numeral), x.wf = true → x.leadingZero = false → x.units.length ≤ 99999000 →
+      ∀ r, strToNum x.units 0 x.units.length = some r → r.kind = .real → magBits r < infBits →
+        ulpDist (magBits r) (nearestMag x.magFrac.1 x.magFrac.2) ≤ 1 := by
+  intro x hwf hlz hlen r hr hk _
+  rcases numeral_good x hwf hlz hlen with ⟨r', h1, _, h3⟩ | ⟨r', h1, h2, _⟩
+  · rw [hr] at h1; cases h1
+    rcases h3 with ⟨a, _⟩ | ⟨_, _, c, _⟩
+    · rw [hk] at a; cases a
+    · exact c
+  · rw [hr] at h1; cases h1
+    rcases h2 with h | h <;> (rw [hk] at h; cases h)
+
+/-- **`overflow_reported_closed`** — for every such numeral whose exact value exceeds the largest finite double the result
+is `NotANumber`, or a `Real` that is an infinity (or NaN pattern) or the largest finite double (possible only when the
+value rounds to it) — never a smaller finite value. This is `overflow_reported` with the documented length bound. -/
+theorem overflow_reported_closed :
+    ∀ (x : Numeral), x.wf = true → x.leadingZero = false → x.units.length ≤ 99999000 →
+      exceedsMaxFinite x.magFrac.1 x.magFrac.2 = true →
+      ∀ r, strToNum x.units 0 x.units.length = some r →
+        r.kind = .notANumber ∨ (r.kind = .real ∧ (magBits r ≥ infBits ∨ magBits r = maxFiniteBits)) := by
+  intro x hwf hlz hlen hex r hr
+  have hov : (2 ^ 53 - 1) * 2 ^ 971 * x.magFrac.2 < x.magFrac.1 := by
+    unfold exceedsMaxFinite at hex
+    rw [decide_eq_true_eq, gt_iff_lt] at hex
+    convert hex using 2
+  rcases numeral_good x hwf hlz hlen with ⟨r', h1, _, h3⟩ | ⟨r', h1, _, h3⟩
+  · rw [hr] at h1; cases h1
+    rcases h3 with ⟨a, _⟩ | ⟨a, _, _, d⟩
+    · exact Or.inl a
+    · right
+      refine ⟨a, ?_⟩
+      rcases d hov with h | h
+      · exact Or.inr h
+      · exact Or.inl h
+  · exfalso
+    have h64 : (2 : Nat) ^ 64 ≤ (2 ^ 53 - 1) * 2 ^ 971 := by decide +kernel
+    have h2 : 2 ^ 64 * x.magFrac.2 ≤ (2 ^ 53 - 1) * 2 ^ 971 * x.magFrac.2 := Nat.mul_le_mul_right _ h64
+    exact Nat.lt_irrefl _ (Nat.lt_trans hov (Nat.lt_of_lt_of_le h3 h2))
+
 end Qentem.Props.C09
